@@ -29,7 +29,7 @@ from common import Model, hx, exc_name
 
 logging.disable(logging.CRITICAL)
 
-LEAN_TARGETS = ["NfcVerif.Props.C13", "drv_c13"]
+LEAN_TARGETS = ["NfcVerif.Props.C13", "drv_c13", "NfcVerif.Props.TablesFrame"]
 
 THEOREMS = [
     "NfcVerif.C13.host_command_documented",
@@ -334,6 +334,7 @@ def judge(name, d, kind, step_is_rf, phase, fault, out):
 
 
 def run(ck):
+    ck.tables("TablesFrame")   # T-tie for constants: source tables re-extracted, bridge theorems re-proved
     import nfc.clf
     import nfc.clf.pn53x
     import nfc.clf.udp
